@@ -19,7 +19,7 @@
 (* constants StampAlways / CloseAsError re-introduce two of the repaired    *)
 (* defects to show that the model can see them.                             *)
 (***************************************************************************)
-EXTENDS AppMon
+EXTENDS AppMon, VfEmit
 CONSTANTS Scenarios,      \* set of scenarios: [I, T, R, conns, userAt, horizon]
           StampAlways,    \* TRUE: every ping overwrites last_ping_tm (the repaired C16 defect)
           CloseAsError    \* TRUE: a server close frame goes through the error path (the repaired C14 defect)
@@ -73,7 +73,7 @@ Start ==
   /\ pc = "start"
   /\ LET refuse == (sc.T < 0) \/ (sc.T > 0 /\ sc.I > 0 /\ sc.I <= sc.T)
          b == [ev |-> "run_begin", t |-> now, run |-> 0, interval |-> sc.I, timeout |-> IF sc.T < 0 THEN 0 ELSE sc.T,
-               timeoutGiven |-> sc.T # 0, reconnect |-> sc.R, cbs |-> Cbs, dispatcher |-> "builtin", payload |-> <<>>]
+               timeoutGiven |-> sc.T # 0, reconnect |-> sc.R, cbs |-> Cbs, dispatcher |-> "builtin", payload |-> <<>>, jitter |-> 0]
      IN IF refuse
         THEN /\ Emit(<<b, [ev |-> "run_raise", t |-> now, cls |-> "WebSocketException", run |-> 0]>>)
              /\ pc' = "done" /\ keepRunning' = FALSE
@@ -261,6 +261,8 @@ SingleTransport == Cardinality({k \in 1..Len(mon.conns) : mon.conns[k].outcome =
 TimeBounded == now <= sc.horizon
 Termination == <>(pc = "done")
 NoStuck == pc = "done" \/ ENABLED Next
+\* spec -> code: every way a scenario can end, as the application would see it (replayed into the real library)
+EmitDone == pc = "done" => EmitJson("B", [sc |-> sc, log |-> mon.log])
 W_Timeout == ~(pendingErr = "WebSocketTimeoutException")
 W_Reconnected == ~(reconnecting /\ pc = "looptest")
 W_ClosedByFrame == ~(closeFrame.kind = "close" /\ pc = "done")
